@@ -421,10 +421,19 @@ def run(ctx: Ctx) -> None:
                 holder = m_parent_assign_name(mod, c)
                 sliced = [x for x in walk_local(fn_) if isinstance(x, ast.Subscript) and isinstance(x.slice, ast.Slice) and norm(x.slice) == "1:-1"
                           and ((holder and isinstance(x.value, ast.Name) and x.value.id == holder) or x.value is c)]
+                # `_, *inner, closer = <group>` strips the delimiters as well; the closer then has a name
+                last_names = set()
+                par_ = mod.parent.get(c)
+                if isinstance(par_, ast.Assign) and par_.value is c and len(par_.targets) == 1 and isinstance(par_.targets[0], (ast.Tuple, ast.List)):
+                    el = par_.targets[0].elts
+                    if len(el) == 3 and isinstance(el[1], ast.Starred) and isinstance(el[2], ast.Name):
+                        sliced = sliced or [par_]
+                        last_names.add(el[2].id)
                 if not sliced:
                     continue
                 looks = [x for x in walk_local(fn_) if isinstance(x, ast.Compare) and any(isinstance(k, ast.Constant) and k.value in fused_types for k in ast.walk(x))
-                         and any(isinstance(y, ast.Subscript) and isinstance(y.slice, ast.UnaryOp) and isinstance(y.slice.operand, ast.Constant) and y.slice.operand.value == 1 for y in ast.walk(x))]
+                         and (any(isinstance(y, ast.Subscript) and isinstance(y.slice, ast.UnaryOp) and isinstance(y.slice.operand, ast.Constant) and y.slice.operand.value == 1 for y in ast.walk(x))
+                              or any(isinstance(y, ast.Attribute) and y.attr == "type" and isinstance(y.value, ast.Name) and y.value.id in last_names for y in ast.walk(x)))]
                 ok = not fused_types or bool(looks)
                 ctx.ob("R14.11", f"parser:CxxParser.{fname}|`{short(c, 40)}` stripped with [1:-1]", ok,
                        msg=f"the group is opened by '[' and stripped of its first and last token, but the last token may be the fused {fused_types} closing the group and a subscript inside it: for `int x[a[0]];` the size is reported as `a[0` (the closing bracket of the content is lost)", node=sliced[0], mod=mod)
